@@ -365,6 +365,19 @@ def plan(case: dict[str, Any], routes: Routes) -> list[dict[str, Any]]:
         if thm == "stokes":
             name, call = "circulation_along_surface_boundary", routes.circ_surface
             add(name, "disc", "value", 1, lambda: call(sf(u, v), (u, 0, 1), (v, 0, pi2)))
+            cap = region["cap"]
+            if cap[0] in ("flat", "tilt", "parab") and region.get("dim", 3) == 3:
+                # the same cap swept by chords: Cartesian parameters over a NON-rectangular domain (the limits of the
+                # first parameter depend on the second); same orientation as the polar parametrisation
+                a_, b_ = M.rat(region["a"]), M.rat(region["b"])
+                half_ = a_ * sympy.sqrt(1 - v**2 / b_**2)
+                if cap[0] == "flat":
+                    zc = M.Rational(cap[1])
+                elif cap[0] == "tilt":
+                    zc = M.Rational(cap[1]) * u + M.Rational(cap[2]) * v + M.Rational(cap[3])
+                else:
+                    zc = M.Rational(cap[1]) * (1 - u**2 / a_**2 - v**2 / b_**2) + M.Rational(cap[2])
+                add(name, "disc:chords", "value", 1, lambda: call([u, v, zc], (u, -half_, half_), (v, -b_, b_)))
             if variant:
                 add(name, "disc", "reparam", 1,
                     lambda: call(sf(cu * u, c * v + d), (u, 0, 1 / cu), (v, -d / c, (pi2 - d) / c)))
